@@ -97,6 +97,8 @@ type Enc struct {
 	ranges    map[*ssa.Range]*rangeState
 	rangeKeys map[*ssa.Next]Term
 	keyMemo   map[string]Term
+	// loop ordinals named by the contract that the body does not have
+	missingLoops []int
 	// loop whose own write set must not record the current write (entry counter bumped at its header)
 	skipWriteFor *loopInfo
 	famSorts     map[string]string
